@@ -27,6 +27,6 @@ def run(prog, chk):
     # repairing the chain successor's back pointer, so that no later operation writes through or compares against the dead node
     C.unlink_idiom(prog, chk, "C04.g", ("List", "Map", "MultiMap", "HashMap", "HashSet"))
     # ... and clear() leaves no pointer to a destroyed node behind (list ends, sentinel back pointer, root, buckets)
-    C.clear_resets(prog, chk, "C04.h", ("List", "Map", "MultiMap", "HashMap", "HashSet"))
+    C.clear_resets(prog, chk, "C04.h", tuple(C.NODE))
     # copies re-insert into the destination's own bucket array: its size and the count used for indexing must stay in agreement
     C.bucket_index(prog, chk, "C04.i", ("HashMap", "HashSet"))
